@@ -379,6 +379,28 @@ CHECKS["C02"] = dict(
          "max(1,|sigma|)) because s = e^sigma cannot carry |sigma| < eps. Known finding (listed): sim3 translation relations in "
          "the small-sigma band of C01.")
 
+CHECKS["C08"] = dict(
+    cat="model_checking", ref="DESIGN.md §5 C08",
+    technique="TLA+ spec LMStep.tla (implementation-shaped LevenbergMarquardt.step / GaussNewton.step over several calls, "
+              "the three damping strategies in exponent arithmetic) model-checked by TLC; code->spec trace validation "
+              "(LMStepTrace.tla) of real LM/GN executions observed through a user solver and a user strategy subclass; "
+              "spec->code table of call scripts (LMStepGen.tla) replayed on the real LM",
+    text="TLC explores every behaviour of LM x {Constant, Adaptive, TrustRegion} x reject 0..4 (thorough 0..6) x 4 (5) "
+         "step() calls x every environment choice per trial (solver ok|raise, loss better|equal|worse, quality class), and "
+         "GN, and checks ReturnedLossIsTrueLoss, NotWorseUnlessExhausted, RejectedTrialRestores, SolverRaiseRestores, "
+         "TrialsBounded, DampingMoves (documented rule per strategy), DampingWithinBounds, GNReturnsNewRecordsPrevious, "
+         "termination; six seeded design mutants must be rejected. Real optimizers are run (i) on integer polynomial "
+         "models with a scripted integer solver (first k trials worse for k = 0..reject+1, reject 0..16, the solver "
+         "raising at every j-th solve, random scripts over up to 30 calls; TLC itself computes the true loss of every "
+         "logged parameter vector, the predicted decrease, the quality class and the expected damping exponents) and "
+         "(ii) with the real Cholesky/PINV solvers (true, poisoned, zero, raising) on Rosenbrock, saturating, exponential, "
+         "Himmelblau and SE3 models from far starts with tiny damping (genuine rejections; ranks and integer ulp "
+         "distances); every tabulated call script of the specification is replayed on the real LM from every strategy "
+         "state and compared after every action.",
+    note="Trusted: TLC; IEEE exactness on small integers / powers of two; the harness' loss recomputation (fsum of squared "
+         "residuals of the user's model, Huber closed form) in float runs. Not judged: equal-loss ties, x/0 ratios, "
+         "non-finite runs, weights, non-power-of-two hyper-parameters.")
+
 REASON_TODO = "check not built yet in this session (planned, see DESIGN.md §5); nothing is claimed for it"
 
 
